@@ -1284,6 +1284,46 @@ def check_object(obj, cls, kind, ctxs, tbl, info):
     return None
 
 
+def emit(o, ctx):
+    from bacpypes.pdu import PDUData
+    t = P().Tag()
+    o.encode(t)
+    if ctx is not None:
+        t = t.app_to_context(ctx)
+    pdu = PDUData()
+    t.encode(pdu)
+    return bytes(pdu.pduData)
+
+
+def compare_copy(original, copy, cls, kind, tbl, info):
+    """K(obj): the copy must emit, in both tagging modes, exactly what the original emits, and that must be the
+    independent encoder's octets for the original's state (for a character string: its charset octet + its own octets)"""
+    for ctx in (None, 3, 200):
+        mode = 'app' if ctx is None else 'ctx%d' % ctx
+        try:
+            a = emit(original, ctx)
+        except Exception:
+            a = None                            # the original holds something the encoder refuses
+        try:
+            b = emit(copy, ctx)
+        except Exception as e:
+            b = None
+        if a != b:
+            return dict(info, kind='copy-emits-different-octets', mode=mode, original=repr(obj_state(kind, original))[:160],
+                        original_octets=None if a is None else a[:40].hex(), copy_octets=None if b is None else b[:40].hex())
+        if a is None:
+            continue
+        if kind == 'chars':
+            c = bytes([original.strEncoding]) + bytes(original.strValue)
+            want = spec_header(0, 7, len(c)) + c if ctx is None else spec_header(1, ctx, len(c)) + c
+        else:
+            want = want_octets(kind, original, ctx, tbl)
+        if want is not None and want != ('skip',) and b != want:
+            return dict(info, kind='copy-not-canonical', mode=mode, original=repr(obj_state(kind, original))[:160],
+                        got=b[:40].hex(), want=want[:40].hex())
+    return None
+
+
 def ref_tag(kind, cls, w, tbl, ctx=None, charset=0):
     """a Tag built from reference octets (independent encoder) for the in-domain value w; application class"""
     from bacpypes.pdu import PDUData
@@ -1355,14 +1395,14 @@ def history_direct(rng, cls, kind, tbl, nsteps, script=None):
                 cs = rng.choice([0, 3, 4, 5]) if kind == 'chars' else 0
                 if kind == 'null':
                     st = rng.choice([('decode', None, None, 0), ('copy',), ('decode', None, rng.choice(CTX_QUICK), 0)])
-                elif r < 0.4 or (kind == 'chars' and r < 0.7):
+                elif r < 0.4:
                     w = pick()
                     if kind == 'chars' and cs == 5 and any(ord(ch) > 255 for ch in w):
                         cs = 3
                     st = ('decode', w, rng.choice([None, None] + CTX_QUICK), cs)
-                elif r < 0.55:
+                elif r < 0.6:
                     st = ('copy',)
-                elif r < 0.65 and kind == 'objid':
+                elif r < 0.68 and kind == 'objid':
                     st = ('touch', rng.choice(['get_long', 'lt', 'sort', 'hash', 'str']))
                 elif kind == 'objid':
                     t, inst = pick()
@@ -1396,6 +1436,11 @@ def history_direct(rng, cls, kind, tbl, nsteps, script=None):
                 expected = obj_state(kind, obj)
                 orig = (obj, expected)
                 obj = cls(obj)
+                cf = compare_copy(orig[0], obj, cls, kind, tbl, info)
+                if cf:
+                    cf['step'] = len(done) - 1
+                    cf['history'] = [replay_step(x) for x in done]
+                    return cf, done, n
             elif st[0] == 'set_tuple':
                 obj.set_tuple(st[1], st[2])
                 expected = obj_state(kind, cls((st[1], st[2])))
@@ -1462,6 +1507,26 @@ def direct_histories(rng, tier):
     quick = tier != 'thorough'
     failures, n, nontriv = [], 0, 0
     for cls, kind, tbl in life_classes(rng):
+        # deterministic: every value of the class's pool, (every charset for strings,) both ways of obtaining the object
+        # (constructor / decode of a reference tag), then copy and copy of the copy
+        bad = None
+        for w in life_values(rng, kind, cls, tbl):
+            for cs in ((0, 3, 4, 5) if kind == 'chars' else (0,)):
+                if kind == 'chars' and cs == 5 and any(ord(ch) > 255 for ch in w):
+                    continue
+                scripts = [[('new', w), ('decode', w, None, cs), ('copy',), ('copy',)],
+                           [('new', w), ('decode', w, 15, cs), ('copy',), ('decode', w, None, cs), ('copy',)]]
+                if cs == 0:
+                    scripts.append([('new', w), ('copy',), ('copy',)])
+                for sc in scripts:
+                    f, done, k = history_direct(rng, cls, kind, tbl, 0, script=sc)
+                    n += k
+                    nontriv += 1
+                    if f and bad is None:
+                        bad = f
+        if bad:
+            failures.append(bad)
+            continue
         for _ in range((200 if kind in ('objid', 'chars') else 80) if quick else 2000):
             f, done, k = history_direct(rng, cls, kind, tbl, rng.randrange(3, 9))
             n += k
